@@ -47,6 +47,15 @@ def run(res, proof):
         structs = [s for s in structs if len(s) <= 5 or rng.random() < 0.15]
     for _ in range(60 if quick else 500):
         structs.append(gen.random_structure(rng, rng.randint(6, 30 if quick else 120), pair_bias=rng.choice((0.5, 0.8)), depth_bias=rng.choice((0.3, 0.7))))
+    # the process has used the reader before, configured for other classes (as a program reading two kinds of input does);
+    # it is then configured for the library classes WITHOUT clearing in between: the round trip concerns those classes
+    class _OtherD(DomainS): pass
+    class _OtherC(ComplexS): pass
+    objectio.set_io_objects(D=_OtherD, C=_OtherC)
+    try:
+        objectio.read_pil_line('length earlier_use = 7')
+    except Exception:
+        pass
     objectio.set_io_objects()
     lines, impl = [], []
     # copies of ONE strand with a pairing that is not symmetric (all rotations share the sequence, not the structure)
@@ -100,6 +109,7 @@ def run(res, proof):
                     t0 = c.turns
                     c.turns = t0 + 1
                     ks_other = c.kernel_string
+                    other_desc = ([str(x) for x in c.sequence], list(c.structure))
                     c.turns = t0
                     back2 = objectio.read_pil_line(cname + ' = ' + ks_other)
                     if back2 is not c:
@@ -112,6 +122,19 @@ def run(res, proof):
                 again = objectio.read_pil_line(text)
                 ok = ok and [str(x) for x in again.sequence] == rn and list(again.structure) == rs
                 del again
+                if ok and len([x for x in rn if x == '+']) >= 1:
+                    # what was written after the turn describes the TURNED representation (also when the dot-bracket string of
+                    # the rotation happens to be the same): read into a fresh registry it gives that sequence and structure
+                    clear_singletons(ComplexS)
+                    turned = objectio.read_pil_line(cname + ' = ' + ks_other)
+                    got_desc = ([str(x) for x in turned.sequence], list(turned.structure))
+                    del turned
+                    import gc as _gc
+                    _gc.collect()          # objects built by the reader may need one collection to go (C05)
+                    if got_desc != other_desc:
+                        ok = False
+                        obs = 'kernel string written after turns += 1: %s reads as %s / %s' % (ks_other, ' '.join(got_desc[0]), ''.join(got_desc[1]))
+                        rn, rs = other_desc
             except Exception as e:
                 ok, obs, ks, text = False, 'raised ' + type(e).__name__, '?', '?'
             if not ok:
